@@ -42,6 +42,39 @@ for _m in ("_hash_prevouts", "_hash_sequence", "_hash_outputs", "_signature_for_
 VM_RECEIVERS = ("vm.", "vm[", "stack.", "stack[")
 
 
+
+def memo_policy(ctx, g, wr, key):
+    """a write that keeps something the reviewed tree did not keep -- an attribute no reviewed function of the module writes, a
+    module-level table added since the review -- is a memo: judged by whether it can go stale (sym.stale_memo), not by its
+    existence.  True when the write was disposed of here (reported as undecided); False when it is for the caller to judge."""
+    import re as _re
+    recv = wr.text
+    m_ = _re.match(r"^((?:self|cls|class_)\.\w+)", recv)
+    if m_ is not None:
+        from sa import modref as _modref
+        tree_ = _modref._tree(g.module.name)
+        known = sym._attrs_written_in(tree_) if tree_ is not None else None
+        if known is not None and m_.group(1).split(".")[1] not in known:
+            try:
+                sm_ = sym.summarize(sym.expanded(ctx, g), sym.Canon(sym.make_const_of(ctx, g), None, None))
+                stale = sym.stale_memo(sm_, {m_.group(1)})
+            except Exception:
+                stale = None
+            if not stale:
+                ctx.undecided(key, ctx.where(g, wr.node), "%s keeps `%s` between calls (added since the review); it is handed out again only under a test that reads the object's state, or this rule cannot read when: no verdict on whether it can go stale"
+                              % (g.qualname.split(".", 3)[-1], m_.group(1)))
+                return True
+    m2_ = _re.match(r"^([A-Za-z_]\w*)[\[.]", recv)
+    if m2_ is not None and "free variable" in (wr.why or ""):
+        from sa import shared_state as _ss
+        objs_, _w, _wr = _ss.reviewed()
+        if m2_.group(1) in g.module.assigns and (g.module.name, m2_.group(1)) not in objs_:
+            ctx.undecided(key, ctx.where(g, wr.node), "%s fills the module-level table `%s`, added since the review: a memo, not state of the transaction or the checker; no verdict here on whether it can go stale"
+                          % (g.qualname.split(".", 3)[-1], m2_.group(1)))
+            return True
+    return False
+
+
 def stateless(ctx, tree, key_prefix):
     for rel, name in tree:
         f = ctx.func(rel, name)
@@ -58,34 +91,8 @@ def stateless(ctx, tree, key_prefix):
                     continue   # call-local cache passed in by checksigs (checked by the cache-scope rule)
                 if g.name == "checksigs" and recv.startswith("public_pair_blobs.") and _callers_pass_fresh(ctx, g, "public_pair_blobs"):
                     continue   # every caller hands over a list it has just built
-                # an attribute no reviewed function of the module writes is a memo added since the review: judged by whether it can
-                # go stale (handed out again without looking at the state it was computed from), not by its existence
-                import re as _re
-                m_ = _re.match(r"^((?:self|cls|class_)\.\w+)", recv)
-                if m_ is not None:
-                    from sa import modref as _modref
-                    tree_ = _modref._tree(g.module.name)
-                    known = sym._attrs_written_in(tree_) if tree_ is not None else None
-                    if known is not None and m_.group(1).split(".")[1] not in known:
-                        try:
-                            sm_ = sym.summarize(sym.expanded(ctx, g), sym.Canon(sym.make_const_of(ctx, g), None, None))
-                            stale = sym.stale_memo(sm_, {m_.group(1)})
-                        except Exception:
-                            stale = None
-                        if not stale:
-                            ctx.undecided("%s:%s:%s" % (key_prefix, g.name, recv), ctx.where(g, wr.node), "%s keeps `%s` between calls (added since the review); it is handed out again only under a test that reads the object's state, or this rule cannot read when: no verdict on whether it can go stale"
-                                          % (g.qualname.split(".", 3)[-1], m_.group(1)))
-                            continue
-                m2_ = _re.match(r"^([A-Za-z_]\w*)[\[.]", recv)
-                if m2_ is not None and "free variable" in (wr.why or ""):
-                    # a module-level table the reviewed tree did not have: a memo added since the review, not state of the
-                    # transaction or the checker (objects of the reviewed tree changed at run time are reported by the call tree)
-                    from sa import shared_state as _ss
-                    objs_, _w, _wr = _ss.reviewed()
-                    if m2_.group(1) in g.module.assigns and (g.module.name, m2_.group(1)) not in objs_:
-                        ctx.undecided("%s:%s:%s" % (key_prefix, g.name, recv), ctx.where(g, wr.node), "%s fills the module-level table `%s`, added since the review: a memo, not state of the transaction or the checker; no verdict here on whether it can go stale"
-                                      % (g.qualname.split(".", 3)[-1], m2_.group(1)))
-                        continue
+                if memo_policy(ctx, g, wr, "%s:%s:%s" % (key_prefix, g.name, recv)):
+                    continue
                 ctx.bad("%s:%s:%s" % (key_prefix, g.name, recv), ctx.where(g, wr.node),
                         "%s writes `%s` (receiver: %s): validation keeps state on the transaction or on the checker, so a later validation of the same "
                         "object can differ from the verdict of a fresh object" % (g.qualname.split(".", 3)[-1], recv, wr.why),
